@@ -453,6 +453,61 @@ Proof.
   split; apply G; cbn; auto.
 Qed.
 
+(* swaps and deposits done: what holds when the withdrawals start *)
+Lemma before_withdrawals s1 s2 s3 :
+  process_swaps s1 = Ok s2 -> process_deposits SO s2 = Ok s3 ->
+  legacy_net s1 && (s_height s1 <? 978392) = false ->
+  (forall t k, In t (sorted_txs s1) -> tx_pool t = Some k -> In k K /\ LDk k <> fst k /\ LDk k <> snd k) ->
+  NoDup (key_pairs (sorted_txs s1)) ->
+  (forall t c, In t (sorted_txs s1) -> s_coins s1 !! key0 t = Some c -> as_declared c (out0 t)) ->
+  (forall t c, In t (sorted_txs s1) -> s_coins s1 !! key1 t = Some c -> as_declared c (out1 t)) ->
+  nsum (map (fun t => cd_value (out0 t)) (sorted_txs s1)) < U128 ->
+  nsum (map (fun t => cd_value (out1 t)) (sorted_txs s1)) < U128 ->
+  (forall k p'' m, In k K ->
+     pool_deposit (pool_at s2 k)
+       (nsum (map (fun t => cd_value (out0 t)) (txs_for_pool (List.filter (is_deposit_request s2) (sorted_txs s2)) k)))
+       (nsum (map (fun t => cd_value (out1 t)) (txs_for_pool (List.filter (is_deposit_request s2) (sorted_txs s2)) k))) = Ok (p'', m) ->
+     p_liqs (pool_at s2 k) + m < U128) ->
+  sorted_txs s3 = sorted_txs s1 /\
+  (forall t c, In t (sorted_txs s1) -> t_kind t = KLiqWithdraw -> s_coins s3 !! key0 t = Some c -> as_declared c (out0 t)) /\
+  forall d, settles d s1 s3.
+Proof.
+  intros H1 H2 Hleg Hcover Hkeys Hd0 Hd1 Hs0 Hs1 Hsat.
+  pose proof (frame_process_swaps _ _ H1) as F1. pose proof (frame_process_deposits SO _ _ H2) as F2.
+  assert (T2: sorted_txs s2 = sorted_txs s1).
+  { apply txs_same. unfold frame_fp, frame in F1. injection F1 as _ _ _ E _ _ _ _ _. exact E. }
+  assert (T3: sorted_txs s3 = sorted_txs s1).
+  { rewrite <- T2. apply txs_same. unfold frame_fp, frame in F2. injection F2 as _ _ _ E _ _ _ _ _. exact E. }
+  assert (N2: s_network s2 = s_network s1 /\ s_height s2 = s_height s1).
+  { unfold frame_fp, frame in F1. injection F1 as E1 E2 _ _ _ _ _ _ _. auto. }
+  destruct N2 as [En2 Eh2].
+  assert (U1: forall t, In t (sorted_txs s1) -> t_kind t <> KSwap ->
+            s_coins s2 !! key0 t = s_coins s1 !! key0 t /\ s_coins s2 !! key1 t = s_coins s1 !! key1 t).
+  { intros t Ht Hk.
+    destruct (other_kind_untouched (sorted_txs s1) (List.filter (is_swap_request s1) (sorted_txs s1)) KSwap t Hkeys Ht) as [A0 A1]; [|exact Hk|].
+    - intros t' Ht'. apply filter_In in Ht' as [Hin Hr]. split; [exact Hin|apply (request_kinds s1 t'); exact Hr].
+    - split; [apply (coins_process_swaps s1 s2 _ A0 H1)|apply (coins_process_swaps s1 s2 _ A1 H1)]. }
+  assert (U2: forall t, In t (sorted_txs s1) -> t_kind t <> KLiqDeposit ->
+            s_coins s3 !! key0 t = s_coins s2 !! key0 t /\ s_coins s3 !! key1 t = s_coins s2 !! key1 t).
+  { intros t Ht Hk.
+    destruct (other_kind_untouched (sorted_txs s1) (List.filter (is_deposit_request s2) (sorted_txs s2)) KLiqDeposit t Hkeys Ht) as [A0 A1]; [|exact Hk|].
+    - intros t' Ht'. apply filter_In in Ht' as [Hin Hr]. rewrite T2 in Hin. split; [exact Hin|apply (request_kinds s2 t'); exact Hr].
+    - split; [apply (coins_process_deposits SO s2 s3 _ A0 H2)|apply (coins_process_deposits SO s2 s3 _ A1 H2)]. }
+  split; [exact T3|]. split.
+  { intros t c Ht Ek Ec.
+    destruct (U2 t Ht) as [E0 _]; [rewrite Ek; discriminate|]. rewrite E0 in Ec.
+    destruct (U1 t Ht) as [E0' _]; [rewrite Ek; discriminate|]. rewrite E0' in Ec. apply (Hd0 t c Ht Ec). }
+  intros d. apply (settles_trans d s1 s2 s3).
+  { apply (process_swaps_settles s1 s2 H1); try assumption.
+    - intros t k Ht E. apply (Hcover t k Ht E).
+    - intros t c Ht _ Ec. apply (Hd0 t c Ht Ec). }
+  apply (process_deposits_settles s2 s3 H2); rewrite ?T2; try assumption.
+  - unfold legacy_net. rewrite En2, Eh2. exact Hleg.
+  - intros t c Ht Ek Ec. destruct (U1 t Ht) as [E0 _]; [rewrite Ek; discriminate|]. rewrite E0 in Ec. apply (Hd0 t c Ht Ec).
+  - intros t c Ht Ek Ec. destruct (U1 t Ht) as [_ E1]; [rewrite Ek; discriminate|]. rewrite E1 in Ec. apply (Hd1 t c Ht Ec).
+  - intros k p'' m Hk Hm. apply (Hsat k p'' m Hk). rewrite T2. exact Hm.
+Qed.
+
 Theorem settlement_settles s1 s2 s3 s4 :
   process_swaps s1 = Ok s2 -> process_deposits SO s2 = Ok s3 -> process_withdrawals SO s3 = Ok s4 ->
   legacy_net s1 && (s_height s1 <? 978392) = false ->
@@ -472,41 +527,9 @@ Theorem settlement_settles s1 s2 s3 s4 :
   forall d, settles d s1 s4.
 Proof.
   intros H1 H2 H3 Hleg Hcover Hkeys Hd0 Hd1 Hs0 Hs1 Hsat Hbound d.
-  pose proof (frame_process_swaps _ _ H1) as F1. pose proof (frame_process_deposits SO _ _ H2) as F2.
-  assert (T2: sorted_txs s2 = sorted_txs s1).
-  { apply txs_same. unfold frame_fp, frame in F1. injection F1 as _ _ _ E _ _ _ _ _. exact E. }
-  assert (T3: sorted_txs s3 = sorted_txs s1).
-  { rewrite <- T2. apply txs_same. unfold frame_fp, frame in F2. injection F2 as _ _ _ E _ _ _ _ _. exact E. }
-  assert (N2: s_network s2 = s_network s1 /\ s_height s2 = s_height s1).
-  { unfold frame_fp, frame in F1. injection F1 as E1 E2 _ _ _ _ _ _ _. auto. }
-  destruct N2 as [En2 Eh2].
-  (* coins of deposit / withdrawal transactions are where the batch left them when their phase starts *)
-  assert (U1: forall t, In t (sorted_txs s1) -> t_kind t <> KSwap ->
-            s_coins s2 !! key0 t = s_coins s1 !! key0 t /\ s_coins s2 !! key1 t = s_coins s1 !! key1 t).
-  { intros t Ht Hk.
-    destruct (other_kind_untouched (sorted_txs s1) (List.filter (is_swap_request s1) (sorted_txs s1)) KSwap t Hkeys Ht) as [A0 A1]; [|exact Hk|].
-    - intros t' Ht'. apply filter_In in Ht' as [Hin Hr]. split; [exact Hin|apply (request_kinds s1 t'); exact Hr].
-    - split; [apply (coins_process_swaps s1 s2 _ A0 H1)|apply (coins_process_swaps s1 s2 _ A1 H1)]. }
-  assert (U2: forall t, In t (sorted_txs s1) -> t_kind t <> KLiqDeposit ->
-            s_coins s3 !! key0 t = s_coins s2 !! key0 t /\ s_coins s3 !! key1 t = s_coins s2 !! key1 t).
-  { intros t Ht Hk.
-    destruct (other_kind_untouched (sorted_txs s1) (List.filter (is_deposit_request s2) (sorted_txs s2)) KLiqDeposit t Hkeys Ht) as [A0 A1]; [|exact Hk|].
-    - intros t' Ht'. apply filter_In in Ht' as [Hin Hr]. rewrite T2 in Hin. split; [exact Hin|apply (request_kinds s2 t'); exact Hr].
-    - split; [apply (coins_process_deposits SO s2 s3 _ A0 H2)|apply (coins_process_deposits SO s2 s3 _ A1 H2)]. }
-  apply (settles_trans d s1 s2 s4).
-  { apply (process_swaps_settles s1 s2 H1); try assumption.
-    - intros t k Ht E. apply (Hcover t k Ht E).
-    - intros t c Ht _ Ec. apply (Hd0 t c Ht Ec). }
-  apply (settles_trans d s2 s3 s4).
-  { apply (process_deposits_settles s2 s3 H2); rewrite ?T2; try assumption.
-    - unfold legacy_net. rewrite En2, Eh2. exact Hleg.
-    - intros t c Ht Ek Ec. destruct (U1 t Ht) as [E0 _]; [rewrite Ek; discriminate|]. rewrite E0 in Ec. apply (Hd0 t c Ht Ec).
-    - intros t c Ht Ek Ec. destruct (U1 t Ht) as [_ E1]; [rewrite Ek; discriminate|]. rewrite E1 in Ec. apply (Hd1 t c Ht Ec).
-    - intros k p'' m Hk Hm. apply (Hsat k p'' m Hk). rewrite T2. exact Hm. }
+  destruct (before_withdrawals s1 s2 s3 H1 H2 Hleg Hcover Hkeys Hd0 Hd1 Hs0 Hs1 Hsat) as (T3 & Hdw & S13).
+  apply (settles_trans d s1 s3 s4); [apply S13|].
   apply (process_withdrawals_settles s3 s4 H3); rewrite ?T3; try assumption.
-  intros t c Ht Ek Ec.
-  destruct (U2 t Ht) as [E0 _]; [rewrite Ek; discriminate|]. rewrite E0 in Ec.
-  destruct (U1 t Ht) as [E0' _]; [rewrite Ek; discriminate|]. rewrite E0' in Ec. apply (Hd0 t c Ht Ec).
 Qed.
 
 (* consequences: a denomination that is no pool's liquidity token is conserved; a liquidity token stays backed *)
